@@ -214,7 +214,20 @@ class Gen:
         return self.rec(name, op, {"values": v, "name": n})
 
     def g_set_net_attr(self, name, m, op):
-        return self.rec(name, op, {"key": self.r.choice(["name", "src", "k"]), "value": self.r.choice(ATTR_VALS)})
+        keys = ["name", "src", "k"]
+        val = self.r.choice(ATTR_VALS)
+        if self.cfg.get("nested_attrs"):
+            # unusual but legal: a non-string key, a key that is also a constructor parameter,
+            # nested mutable values
+            keys = keys + [0, "incoming_data", "tags"]
+            x = self.r.random()
+            if x < 0.35:
+                val = [self.r.randint(0, 3)]
+            elif x < 0.55:
+                val = {"k": [self.r.randint(0, 3)]}
+            elif x < 0.65:
+                val = ([self.r.randint(0, 3)], "closed")
+        return self.rec(name, op, {"key": self.r.choice(keys), "value": val})
 
     def g_clear(self, name, m, op):
         return self.rec(name, op, {"remove_net_attr": self.r.random() < 0.5})
